@@ -387,8 +387,9 @@ def into_data(val: Convertible, ty: t.Optional[IntoConverter] = None, *,
     Convert `val` of type `ty` into a data interchange format.
     """
     if ty is None:
-        if isinstance(val, _ScalarType) and custom is None:
+        if isinstance(val, _ScalarType) and not isinstance(val, enum.Enum) and custom is None:
             # we can bypass the converter for scalar types
+            # (but not for a member of a `str`/`int` enum, which is written as its value)
             return val
         ty = type(val)
 
